@@ -38,7 +38,7 @@ def run(tier):
     wl_checks.c04_part(chk, tier, rng)
     # batches seen whole or not at all by concurrent snapshot readers and scans; every critical section replayed on the Conc model
     import conccheck
-    conccheck.conc_part(chk, tier, rng.fork('conc'), {'snapshot', 'scan', 'final'}, scale=0.5)
+    conccheck.conc_part(chk, tier, rng.fork('conc'), {'snapshot', 'snapstable', 'scan', 'final'}, scale=0.5)
     return chk.finish()
 
 
